@@ -12,7 +12,8 @@ namespace Narsese
 
 def isDigit (c : Char) : Bool := '0'.toNat ≤ c.toNat && c.toNat ≤ '9'.toNat
 
-def digitVal (c : Char) : Nat := c.toNat - '0'.toNat
+/-- (irreducible: unfolding `Nat.sub _ 48` during definitional unfolding is exponential for the elaborator) -/
+@[irreducible] def digitVal (c : Char) : Nat := c.toNat - '0'.toNat
 
 /-- value of a digit string (most significant first) -/
 def digitsVal (acc : Nat) : Str → Nat
